@@ -358,6 +358,10 @@ def _run_pipeline(ctx, case):
             if r:
                 ctx.violation("custom-column-names", f"step {step} {label}: {r}", case)
                 return
+            r = G.same_under_ambient(lambda: fn(*inputs), pick=step + case["pseed"])
+            if r:
+                ctx.violation("ambient-state", f"step {step} {label}: {r}", case)
+                return
         # probe 1: poison the output, inputs must not notice
         saved = content(out)
         poison(out)
